@@ -171,26 +171,9 @@ func sharedStateRules(r *core.Result, prog *core.Program, lp *packages.Package) 
 	}
 	// 4. package-level variables are never written
 	for _, f := range ix.decls {
-		ast.Inspect(f.Decl.Body, func(n ast.Node) bool {
-			var targets []ast.Expr
-			switch x := n.(type) {
-			case *ast.AssignStmt:
-				targets = x.Lhs
-			case *ast.IncDecStmt:
-				targets = []ast.Expr{x.X}
-			case *ast.UnaryExpr:
-				if x.Op == token.AND {
-					targets = []ast.Expr{x.X}
-				}
-			}
-			for _, t := range targets {
-				if id := rootIdent(t); id != nil {
-					if v, ok := info.Uses[id].(*types.Var); ok && v.Pkg() == lp.Types && v.Parent() == lp.Types.Scope() {
-						r.Ob("S-global", f.Name+" :: "+id.Name, prog.Pos(t.Pos()), false, "package-level variable is written (or its address taken) after initialisation")
-					}
-				}
-			}
-			return true
+		f := f
+		pkgLevelWrites(info, f.Decl.Body, true, func(pos token.Pos, v *types.Var, how string) {
+			r.Ob("S-global", f.Name+" :: "+v.Name(), prog.Pos(pos), false, "package-level variable "+v.Pkg().Name()+"."+v.Name()+" is "+how+" after initialisation")
 		})
 	}
 	return nStores
